@@ -54,7 +54,7 @@ def _case(draw, tier):
     first = draw(st.one_of(st.just([]), st.lists(st.sampled_from(names), min_size=1, max_size=2, unique=True),
                            st.lists(st.sampled_from(names), min_size=1, max_size=2, unique=True)))
     steps = [["run", first]] + [list(s) for s in draw(st.lists(step, min_size=3, max_size=22 if big else 14))]
-    return {"desc": desc, "backend": draw(st.sampled_from(["slurm", "slurm", "sge", "lsf"])), "steps": steps,
+    return {"desc": desc, "invoke": draw(gen.invoke()), "backend": draw(st.sampled_from(["slurm", "slurm", "sge", "lsf"])), "steps": steps,
             "drain": draw(st.lists(st.tuples(st.integers(0, 9), st.sampled_from(["ok", "ok", "ok", "exit", "timeout"])),
                                    max_size=30))}
 
@@ -118,7 +118,7 @@ def run_case(case):
     expected = {}  # job id -> set of prerequisite job ids (model)
     invocation = {}  # job id -> number of the gwf run that submitted it
     nt = False
-    with project.Project(desc, backend=flavour) as proj:
+    with project.Project(desc, backend=flavour, invoke=case.get("invoke")) as proj:
         R0 = model.Resolved(desc)
         proj.set_files({p: (t if t is not None or p in R0.producers else 1) for p, t in desc["files"].items()})
         S = hist.Session(proj, desc)
